@@ -450,6 +450,62 @@ func init() {
 				}
 				cases = append(cases, bc)
 			}
+			// how many services there are is no input of the scope semantics: one service alone, and two, in every scope and
+			// three creation methods
+			for si, scope := range []*string{nil, P("shared"), P("non_shared"), P("contextual")} {
+				for ci, mk := range []func(n string) Service{
+					func(n string) Service { return Service{Name: n, Constructor: P("pk.New1")} },
+					func(n string) Service { return Service{Name: n, Value: P("&pk.Obj{}")} },
+					func(n string) Service { return Service{Name: n, Type: P("pk2.Val"), Fields: []KV{{"F1", 1}}} },
+				} {
+					for n := 1; n <= 2; n++ {
+						cfg := &Cfg{Meta: stdMeta()}
+						for k := 0; k < n; k++ {
+							sv := mk([]string{"only", "other"}[k])
+							sv.Scope = scope
+							cfg.Services = append(cfg.Services, sv)
+						}
+						ops := []ProbeOp{op("get", "only"), op("get", "only"), opCtx("getctx", "A", "only"), opCtx("getctx", "A", "only"), opCtx("getctx", "B", "only"), op("get", "only"), op("counters", "")}
+						cases = append(cases, &BCase{ID: fmt.Sprintf("few-services/n=%d/scope=%d/creation=%d", n, si, ci), Cfg: cfg, Sessions: []BSession{{Ops: ops}}})
+					}
+				}
+			}
+			// the scope of a service without a declared scope follows what it depends on NOW: a dependency replaced at run
+			// time by one of another scope changes it (dependants not yet constructed)
+			for oi, ovScope := range []string{"", "shared", "contextual", "non_shared"} {
+				for di, depScope := range []*string{nil, P("shared"), P("contextual"), P("non_shared")} {
+					for _, via := range []string{"argument", "field", "call", "decorator", "tagged"} {
+						cfg := &Cfg{Meta: stdMeta()}
+						dep := Service{Name: "dep", Constructor: P("pk.New1"), Scope: depScope}
+						user := Service{Name: "user", Constructor: P("pk.New2")}
+						switch via {
+						case "argument":
+							user.Args = []any{"@dep"}
+						case "field":
+							user.Fields = []KV{{"F1", "@dep"}}
+						case "call":
+							user.Calls = []Call{{Method: "Set1", Args: []any{"@dep"}}}
+						case "decorator":
+							user.Tags = []Tag{{Name: "dtag"}}
+							cfg.Decorators = []Decorator{{Tag: "dtag", Decorator: "pk2.Dec1", Args: []any{"@dep"}}}
+						case "tagged":
+							dep.Tags = []Tag{{Name: "deps"}}
+							user.Args = []any{"!tagged deps"}
+						}
+						cfg.Services = []Service{dep, user, {Name: "top", Constructor: P("pk.New3"), Args: []any{"@user"}}}
+						spec := &ProbeSpec{Kind: "ctor", Ctor: "fx/pk.New", Args: []any{"replacement"}, Scope: ovScope}
+						if via == "tagged" {
+							spec.Tags = []string{"deps"}
+						}
+						ov := ProbeOp{Op: "overrideService", Name: "dep", Val: spec}
+						after := []ProbeOp{opCtx("getctx", "A", "top"), opCtx("getctx", "A", "user"), opCtx("getctx", "B", "user"), op("get", "user"), op("get", "user"), opCtx("getctx", "A", "dep"), opCtx("getctx", "B", "top"), op("get", "top"), op("counters", "")}
+						cases = append(cases, &BCase{ID: fmt.Sprintf("override-changes-scope/replacement=%d/declared=%d/%s", oi, di, via), Cfg: cfg, Sessions: []BSession{
+							{Ops: append([]ProbeOp{ov}, after...)},
+							{Ops: after},
+						}})
+					}
+				}
+			}
 			reps := [][][2]int{{{0, 1}, {1, 2}}, {{0, 1}, {0, 2}}, {{0, 2}, {1, 2}}}
 			for gi, es := range dags3 {
 				kinds := make([]int, len(es))
